@@ -470,6 +470,9 @@ func (c *Ctx) writeEvidence(nviol int, known int) {
 	}
 	data, _ := json.MarshalIndent(ev, "", " ")
 	dir := filepath.Join(verifRoot, "evidence")
+	if d := os.Getenv("VERIF_EVIDENCE_DIR"); d != "" {
+		dir = d // seedtest.sh: a run against a seeded change must not overwrite the evidence of the registered checks
+	}
 	os.MkdirAll(dir, 0o755)
 	name := c.Prop + ".json"
 	if c.Of > 1 {
